@@ -11,7 +11,12 @@ namespace IrVerif.Scope
 /-- **C17_total**: `deserialize` is a total function on every `GraphP`, with no well-formedness
     hypothesis.  The definition (`deserGraph` / `deserNodes` / `deserNode` / `deserSubs`) is accepted
     by Lean's termination checker as a structural recursion on the proto: no fuel, no `partial`.
-    Every proto therefore yields an error or an IR. -/
+    Every proto therefore yields an error or an IR.
+    The proof is a case split on `Except` — a tautology for any Lean function; the evidence for
+    "deserialization terminates" is that Lean accepted the definition, not this proof.  The input space is
+    the abstract `GraphP` (names plus opaque tokens): invalid UTF-8, unknown enum values, inconsistent
+    tensor fields, recursion depth and wall-clock behaviour of the real code are covered by the harness
+    only (byte-level and field-level mutation streams, CPU-time limit). -/
 theorem C17_total (p : GraphP) :
     (∃ w, deserialize p = .ok w) ∨ (∃ e, deserialize p = .error e) := by
   cases h : deserialize p with
